@@ -312,6 +312,86 @@ def rule_u(F):
     return res
 
 
+INDEX_OK = {
+    # (function, ordinal) -> why a panicking index is in range there
+    ("read_str", 0): "bytecode/data slice at an operand the compiler wrote (C10.S: complete length-prefixed strings)",
+    ("decode_value", 0): "bytecode slice at an operand the compiler wrote (C10.W: operand widths agree)",
+    ("instr_set_var", 0): "global_vars was resized to id + 1 on the line before",
+    ("register_upvalue", 0): "index into the enclosing closure's upvalues, an operand the compiler took from add_upvalue (C10.U / C06.W)",
+}
+
+
+def rule_i(F):
+    """C04.I: instruction handlers do not index with run-time quantities. Inside vm::instr_execution::* and Vm::_run every
+    panicking index (slice/Vec Index::index, MIR BoundsCheck) is listed in INDEX_OK with the reason its index is in range;
+    anything else - in particular an index computed from the frame offset or the stack height, which depend on how many
+    arguments a call site pushed - must be a checked `get` that turns a miss into an error value."""
+    res = []
+    n = 0
+    for f in F.fns:
+        if not f.mir:
+            continue
+        root = f.root or f.short
+        if not (root.startswith("vm::instr_execution::") or root == "vm::Vm::_run"):
+            continue
+        fname = root.rsplit("::", 1)[-1]
+        k = 0
+        sites = []
+        for bi, b in enumerate(f.blocks):
+            t = b["term"]
+            if t["k"] == "assert" and t["msg"] == "BoundsCheck":
+                sites.append((t.get("ln") or 0, "array/slice index", t))
+            elif t["k"] == "call" and any(x.endswith("ops::Index::index") or x.endswith("ops::IndexMut::index_mut") for x in callee_names(t["func"])):
+                sites.append((t.get("ln") or 0, callee_names(t["func"])[-1], t))
+        for ln, what, t in sorted(sites, key=lambda x: x[0]):
+            key = "C04/I/%s/panicking-index%s" % (fname, "" if k == 0 else "#%d" % k)
+            why = INDEX_OK.get((fname, k))
+            k += 1
+            n += 1
+            if why:
+                res.append(ok("C04.I", key, f.loc(ln), "in range: " + why))
+            else:
+                res.append(bad("C04.I", key, f.loc(ln), "%s indexes (%s) with a quantity that is only known at run time and is not in the table of "
+                               "justified sites: a program whose stack is shorter than the compiler assumed (a call with fewer arguments than "
+                               "the callee declares truncates the caller's locals) makes the VM panic instead of returning an error" % (fname, what)))
+    if n < 4:
+        raise AnchorMissing("panicking index sites in the instruction handlers (found %d)" % n)
+    return res
+
+
+def rule_c(F):
+    """C04.C: the compiler's fixed-capacity tables (locals, upvalues: ArrayVec<_, 255>) are filled through the fallible
+    try_push only. ArrayVec::push / insert / extend panic when the table is full, which a large but legal program reaches
+    (255 captured locals plus one variable from further out): a compile error (TooManyLocals / TooManyUpvalues) is due."""
+    res = []
+    n = 0
+    PANICKING = ("push", "insert", "extend", "extend_from_slice", "push_str")
+    cnt = {}
+    for f in F.fns:
+        if not f.mir or not f.path.startswith("compiler"):
+            continue
+        for bi, t in mu.calls(f):
+            nm = [x for x in callee_names(t["func"]) if x.startswith("arrayvec::")]
+            if not nm:
+                continue
+            last = nm[0].rsplit("::", 1)[-1]
+            if last not in PANICKING and not last.startswith("try_"):
+                continue
+            fname = (f.root or f.short).rsplit("::", 1)[-1]
+            k = cnt.get(fname, 0)
+            cnt[fname] = k + 1
+            key = "C04/C/%s/fixed-capacity-insert%s-is-fallible" % (fname, "" if k == 0 else "#%d" % k)
+            n += 1
+            if last in PANICKING:
+                res.append(bad("C04.C", key, f.loc(t.get("ln")), "%s fills a fixed-capacity table with %s, which panics when the table is full: a "
+                               "program with one capture (or local) too many makes the compiler panic instead of returning a compile error" % (fname, nm[0])))
+            else:
+                res.append(ok("C04.C", key, f.loc(t.get("ln")), "%s: a full table is an Err" % nm[0]))
+    if n < 2:
+        raise AnchorMissing("insertions into the compiler's ArrayVec tables (found %d)" % n)
+    return res
+
+
 def rule_s(F):
     """In instruction handlers (vm::instr_execution::*, Vm::_run, Vm::binary_op): results of ValueStack::push /
     BoundedStack::push / Vm::stack_push are never unwrapped/expected (which would turn exhaustion into a panic)."""
@@ -388,5 +468,7 @@ RULES = [
     Rule("C04.K", rule_k, 8, "lookups keyed by script values are not assumed to succeed"),
     Rule("C04.U", rule_u, 1, "counts read from program text are subtracted with a check"),
     Rule("C04.H", shared(_c14.rule_b, "C14.B", "C04.H"), 14, "height-raising stores are guarded (shared with C14.B)"),
+    Rule("C04.I", rule_i, 4, "instruction handlers index only where the index is known to be in range"),
+    Rule("C04.C", rule_c, 2, "the compiler's fixed-capacity tables are filled through try_push"),
     Rule("C04.S", rule_s, 20, "stack exhaustion is an error value in instruction handlers"),
 ]
